@@ -36,6 +36,15 @@ def cmp_scenarios(draw):
                      st.floats(0, 3 * idle).map(lambda x: round(x, 3)))
     durs = st.sampled_from([0.0, 0.0, 0.1, idle, idle - EPS, idle + EPS, 2 * idle, 0.5])
     events = draw(st.lists(st.fixed_dictionaries({'obj': st.integers(0, nobj - 1), 'gap': gaps, 'dur': durs}), min_size=1, max_size=40))
+    if draw(st.integers(0, 3)) == 0:
+        # slot contention: more objects than slots get an event at once, one of them is slow, the others finish and their workers
+        # retire one by one while the slow one still runs: every freed slot must go to a waiting object at once
+        limit = draw(st.sampled_from([2, 2, 3]))
+        nobj = limit + draw(st.integers(1, 2))
+        slow = draw(st.integers(0, nobj - 1))
+        first = [{'obj': i, 'gap': 0.0, 'dur': draw(st.sampled_from([2.5 * idle, 4 * idle, 6 * idle])) if i == slow else draw(st.sampled_from([0.0, 0.1, idle / 2]))}
+                 for i in range(nobj)]
+        events = first + [dict(e, obj=e['obj'] % nobj) for e in events[:draw(st.integers(0, 10))]]
     breaks = draw(st.lists(st.floats(0, 30).map(lambda x: round(x, 2)), max_size=3))
     cancel = draw(st.one_of(st.none(), st.none(), st.floats(0, 40).map(lambda x: round(x, 3))))
     return {'mode': 'cmp', 'idle': idle, 'limit': limit, 'nobj': nobj, 'exit_timeout': draw(st.sampled_from([0.5, 2.0, 10.0])),
@@ -54,6 +63,24 @@ def scenarios(draw):
 
 
 # ------------------------------------------------------------------------------------------ component level
+def worker_lives(processed, idle, horizon, exclude=None):
+    """[start, end) of every per-object worker as implied by what was processed: from its first event until idle_timeout after the
+    end of its last one (a later event within that time is served by the same worker)."""
+    lives = []
+    for uid, pl in processed.items():
+        if uid == exclude or not pl:
+            continue
+        start, end = pl[0]['t0'], None
+        for a, b in zip(pl, pl[1:]):
+            a_end = a['t1'] if a['t1'] is not None else horizon
+            if b['t0'] > a_end + idle + 1e-6:
+                lives.append((start, a_end + idle))
+                start = b['t0']
+        last_end = pl[-1]['t1'] if pl[-1]['t1'] is not None else horizon
+        lives.append((start, last_end + idle))
+    return lives
+
+
 def run_cmp(sc, res):
     import kopf
     from kopf._cogs.clients import auth
@@ -236,6 +263,18 @@ def run_cmp(sc, res):
                                  f'{others} other workers alive, limit={sc["limit"]}, idle={idle}')
                     else:
                         waited_for_slot = True
+                        # ...and it waits no longer than until a slot is freed: at no instant before it started were fewer than
+                        # `limit` workers of other objects alive (a worker lives from its first event until idle_timeout after its last)
+                        lives = worker_lives(processed, idle, horizon, exclude=uid)
+                        for (_, end) in sorted(lives, key=lambda x: x[1]):
+                            probe = end + 5e-4
+                            if not (expected < probe < rec['t0'] - 1e-3) or (t_cancel is not None and probe >= t_cancel):
+                                continue
+                            alive = sum(1 for (a, b) in lives if a <= probe < b)
+                            if alive < sc['limit']:
+                                res.fail('C01/slot-free-but-waiting', f'{uid}: event {rec["rv"]} delivered at {t_d} had to wait for a slot (limit={sc["limit"]}), but from '
+                                         f't={end} on only {alive} workers of other objects were alive and it still started only at {rec["t0"]} (idle={idle})')
+                                break
         if waited_for_slot:
             res.label('waited-for-slot')
         if backlog_at_cancel:
